@@ -9,8 +9,7 @@ RULE = ("TLC chooses law x expression x partition: uniform (n and density) on 11
 
 def run(ctx):
     if ctx.replay:
-        scen = [json.load(open(ctx.replay))["trace"]["scenario"]]
-        scen[0].pop("tid", None)
+        scen = ctx.replay_scenarios()
     else:
         scen = ctx.gen("Gen_C11", "Gen_C11")
         if not ctx.quick:
